@@ -12,7 +12,10 @@ from mitmproxy.http import HTTPFlow, Request, Response
 from mitmproxy.websocket import WebSocketData, WebSocketMessage
 from mitmproxy.proxy.layers import websocket as W
 
-FS = W.Fragmentizer.FRAGMENT_SIZE
+# generator hint only (where to place characters); the model's constant is regenerated in translate().
+# Nothing is parsed from source at import time; a renamed/removed attribute must not kill the check at import.
+_fs = getattr(getattr(W, "Fragmentizer", None), "FRAGMENT_SIZE", 4000)
+FS = _fs if isinstance(_fs, int) and 0 < _fs <= 100000 else 4000
 CHARS = ["a", "Z", "0", " ", "é", "ß", "€", "あ", "�", "😀", "𝄞", "߿", "ࠀ", "퟿", "", "\U00010000", "\U0010ffff", "\x00", "\x7f", "\x80"]
 SOUP = bytes([0x41, 0x7f, 0x80, 0xbf, 0xc0, 0xc1, 0xc2, 0xdf, 0xe0, 0xa0, 0x9f, 0xed, 0xef, 0xf0, 0x90, 0x8f, 0xf4, 0xf5, 0xff, 0xe2, 0x82, 0xac])
 
@@ -331,10 +334,12 @@ class Check(PropertyCheck):
 
     # ---- T: constant regenerated from the live class -------------------------------------------
     def translate(self):
+        fs = W.Fragmentizer.FRAGMENT_SIZE      # an exception here is recorded by the runner as a broken tie
+        if not isinstance(fs, int) or fs <= 0: raise ValueError(f"Fragmentizer.FRAGMENT_SIZE = {fs!r}")
         return {"MitmVerif/Gen/C28.lean":
                 "-- generated by harness/c28.py translate() from mitmproxy/proxy/layers/websocket.py — do not edit\n"
                 "namespace MitmVerif.C28\n/-- `Fragmentizer.FRAGMENT_SIZE` -/\n"
-                f"def FRAGMENT_SIZE : Nat := {int(W.Fragmentizer.FRAGMENT_SIZE)}\nend MitmVerif.C28\n"}
+                f"def FRAGMENT_SIZE : Nat := {int(fs)}\nend MitmVerif.C28\n"}
 
     # ---- generators ----------------------------------------------------------------------------
     @staticmethod
